@@ -322,6 +322,17 @@ var entryPoints = []entryPoint{
 	{"object.SetTF-nested", func(v any) slot { return slot{l: at.NewObject().SetTF(".k#1", v).GetList("k"), idx: 1} }},
 	{"NewObject", func(v any) slot { return slot{o: at.NewObject("k", v), key: "k"} }},
 	{"NewObject-2", func(v any) slot { return slot{o: at.NewObject("a", 1, "k", v), key: "k"} }},
+	{"NewObject-key-twice", func(v any) slot { return slot{o: at.NewObject("k", "first", "other", 1, "k", v), key: "k"} }},
+	{"Set-key-twice", func(v any) slot { return slot{o: at.NewObject("k", 0).Set("k", []any{"first"}, "k", v), key: "k"} }},
+	{"list.SetTF-through-nil-slot", func(v any) slot {
+		return slot{o: at.NewList(nil, nil, 1).SetTF("#0.k", v).GetObject(0), key: "k"}
+	}},
+	{"list.SetTF-through-padding", func(v any) slot {
+		return slot{l: at.NewList().SetTF("#2.x", 1).SetTF("#1#0", v).GetList(1), idx: 0}
+	}},
+	{"object.SetTF-through-nil-field", func(v any) slot {
+		return slot{l: at.NewObject("a", nil).SetTF(".a#0", v).GetList("a"), idx: 0}
+	}},
 	{"NewObjectFrom", func(v any) slot { return slot{o: at.NewObjectFrom(map[string]any{"k": v}), key: "k"} }},
 	{"Set", func(v any) slot { return slot{o: at.NewObject().Set("k", v), key: "k"} }},
 	{"Set-overwrite", func(v any) slot { return slot{o: at.NewObject("k", "old").Set("k", v), key: "k"} }},
